@@ -51,8 +51,8 @@ class C20(BaseCheck):
                  'another method\'s _async form or with the proxy base class are not generated',)
   QUICK_CASES = 1200
   THOROUGH_CASES = 100000
-  QUICK_WALL = 30
-  THOROUGH_WALL = 300
+  QUICK_WALL = 180
+  THOROUGH_WALL = 1800
   MIN_DISTINCT = 10
 
   def run_case(self, env, rng, idx, tier):
